@@ -79,46 +79,48 @@ theorem pack_preserves (P : Params) (addr : Bytes) (ch : Value) (hw : MultiAsset
 /-- **C06**: whenever the accounting returns an output list, the balance equation holds exactly — for ADA … -/
 theorem conserves_ada (P : Params) (outs fo : List Output) (a : ChangeArgs) (mc : Bool)
     (h : finalOutputs P outs a mc = .ok fo)
-    (hy : Hyp P (finalArgs outs a mc))
+    (hy : ∀ r, Hyp P (withRespect (finalArgs outs a mc) r))
     (ho : ∀ o ∈ outs, MultiAsset.WF o.amount.ma) :
     (a.inputs.map (·.coin)).sum + a.withdrawals.sum = sumCoin fo + a.fee + a.deposits := by
   unfold finalOutputs at h
   split at h
   · simp at h
-  · rename_i cs hcalc
+  · rename_i cs hfin
     simp only [Except.ok.injEq] at h
     subst h
-    have hs := calcChange_sum P _ cs hcalc hy
+    obtain ⟨r, hcalc, _, _⟩ := Builder.finalChanges_calc P outs cs a mc hfin
+    have hs := calcChange_sum P _ cs hcalc (hy r)
     have hm := mergeChanges_sum outs (mergeIndex outs a mc) cs
       (by intro i hi; unfold mergeIndex at hi; split at hi
           · exact changeIndex_lt _ _ _ hi
           · simp at hi)
       (calcChange_wf P _ cs hcalc) ho
     rw [hm.1, hs.1, provided_coin, requested_coin]
-    simp only [finalArgs, List.map_map, sumCoin]
+    simp only [withRespect, finalArgs, List.map_map, sumCoin]
     have : (List.map ((fun x => x.coin) ∘ fun x => x.amount) outs).sum = (List.map (fun o => o.amount.coin) outs).sum := rfl
     rw [this]; omega
 
 /-- … and for every native asset (mint signed: positive = minted, negative = burned) -/
 theorem conserves_assets (P : Params) (outs fo : List Output) (a : ChangeArgs) (mc : Bool)
     (h : finalOutputs P outs a mc = .ok fo)
-    (hy : Hyp P (finalArgs outs a mc))
+    (hy : ∀ r, Hyp P (withRespect (finalArgs outs a mc) r))
     (ho : ∀ o ∈ outs, MultiAsset.WF o.amount.ma) (p n : Bytes) :
     (a.inputs.map (fun v => MultiAsset.qty v.ma p n)).sum + MultiAsset.qty a.mint p n = sumAsset fo p n := by
   unfold finalOutputs at h
   split at h
   · simp at h
-  · rename_i cs hcalc
+  · rename_i cs hfin
     simp only [Except.ok.injEq] at h
     subst h
-    have hs := calcChange_sum P _ cs hcalc hy
+    obtain ⟨r, hcalc, _, _⟩ := Builder.finalChanges_calc P outs cs a mc hfin
+    have hs := calcChange_sum P _ cs hcalc (hy r)
     have hm := mergeChanges_sum outs (mergeIndex outs a mc) cs
       (by intro i hi; unfold mergeIndex at hi; split at hi
           · exact changeIndex_lt _ _ _ hi
           · simp at hi)
       (calcChange_wf P _ cs hcalc) ho
-    rw [hm.2 p n, hs.2 p n, provided_qty _ hy.wf, requested_qty _ hy.wf]
-    simp only [finalArgs, List.map_map, sumAsset]
+    rw [hm.2 p n, hs.2 p n, provided_qty _ (hy r).wf, requested_qty _ (hy r).wf]
+    simp only [withRespect, finalArgs, List.map_map, sumAsset]
     have : (List.map ((fun v => v.ma.qty p n) ∘ fun x => x.amount) outs).sum
         = (List.map (fun o => o.amount.ma.qty p n) outs).sum := rfl
     rw [this]; omega
